@@ -1,0 +1,24 @@
+//go:build verif
+
+package oserror
+
+// Contracts for the deductive verifier in /verif (comment-only file; see /verif/DESIGN.md).
+
+// C11 / C02: the predicates are at least as strong as the mark-based identity test against the
+// portable sentinel - whatever survives the network as "is ErrNotExist" keeps answering true
+// (the identity of the sentinel across hops is C02's business; that the predicate asks about
+// the right sentinel is decided here)
+//@ func IsPermission
+//@   props C11 C02
+//@   maypanic
+//@   ensures markers.isSpec(err, ErrPermission) ==> result
+
+//@ func IsExist
+//@   props C11 C02
+//@   maypanic
+//@   ensures markers.isSpec(err, ErrExist) ==> result
+
+//@ func IsNotExist
+//@   props C11 C02
+//@   maypanic
+//@   ensures markers.isSpec(err, ErrNotExist) ==> result
